@@ -10,7 +10,9 @@ Inductive tcall :=
 | TSetWord (a v : N)
 | TGetWord (a : N)
 | TSetWords (a : N) (l : list item)
-| TRun (input : list bool) (lol : Z) (start_ip : N)
+| TRun (input : list bool) (rspec wspec : option (N * cbres)) (lol : Z) (start_ip : N)
+                                          (* rspec/wspec: from its k-th call on, read_bit / write_bit behaves as given *)
+| TLastOps                                (* read last_run_last_ops: the kept list *)
 | TGet.                                   (* an attribute read: nothing but the observables to compare *)
 
 (* class: 0 ok, 1 ValueError, 2 MemoryError, 3 OverflowError, 4 TypeError, 5 error raised by a callback *)
@@ -19,12 +21,19 @@ Record tobs := mkObs { o_cls : N; o_alloc : N; o_mode : N; o_vals : list N }.
 Definition exc_code (e : exc) : N :=
   match e with ValueError => 1 | MemoryError => 2 | OverflowError => 3 | TypeError => 4 | CallbackError => 5 end.
 
-Definition al_ok : alloc := fun _ _ => true.
+(* the sanitizer build's allocator: everything the campaign really allocates succeeds (at most 2^27 bytes);
+   the campaign requests nothing between that and 2^44 bytes; larger requests fail *)
+Definition al_ok : alloc := fun _ bytes => bytes <? 17592186044416.
 Definition env0 : envv := mkEnv false 0 false false.
-Definition fixed_io (input : list bool) : world :=
-  mkWorld (fun _ => mkCb [] false (CbBool false))
-          (fun k => mkCb [] false (match nth_error input (N.to_nat k) with Some b => CbBool b | None => CbEOF end))
+Definition spec_io (input : list bool) (rspec wspec : option (N * cbres)) : world :=
+  mkWorld (fun k => mkCb [] false (match wspec with Some (at_, r) => if at_ <=? k then r else CbBool false | None => CbBool false end))
+          (fun k => mkCb [] false (match rspec with
+                                   | Some (at_, r) => if at_ <=? k then r
+                                                      else match nth_error input (N.to_nat k) with Some b => CbBool b | None => CbEOF end
+                                   | None => match nth_error input (N.to_nat k) with Some b => CbBool b | None => CbEOF end
+                                   end))
           (fun _ => false).
+Definition fixed_io (input : list bool) : world := spec_io input None None.
 Definition RUN_FUEL : nat := N.to_nat 6000.
 
 Definition nlist_eqb (a b : list N) : bool := (length a =? length b)%nat && forallb (fun p => fst p =? snd p) (combine a b).
@@ -44,9 +53,10 @@ Definition model_call (ev : envv) (c : tcall) (s : st) : res (out (list N) * st)
   | TSetWord a v => (api_set_word al_ok ov_c a v ;;; ret []) s
   | TGetWord a => (v <- api_get_word al_ok ov_c a;; ret [v]) s
   | TSetWords a l => (api_set_words al_ok ov_c a l ;;; ret []) s
-  | TRun inp lol ip => (r <- api_run ev al_ok ov_c (fixed_io inp) lol ip RUN_FUEL;;
+  | TRun inp rs ws lol ip => (r <- api_run ev al_ok ov_c (spec_io inp rs ws) lol ip RUN_FUEL;;
                         match run_vals r with Some v => ret v | None => lift NoFuel end) s
   | TGet => ret [] s
+  | TLastOps => ret (last_run_last_ops s) s
   end.
 
 Fixpoint check_calls (ev : envv) (cs : list (tcall * tobs)) (s : st) : bool :=
